@@ -11,24 +11,25 @@ import (
 type Timer struct {
 	timer  *time.Timer
 	sleep  time.Duration
-	fn     func()
+	fn     func(gen uint64)
 	stopCh chan struct{}
 
-	// mu orders Stop against the re-arming of an interval, stopped tells the
-	// interval loop that Stop ran while a tick was being handled.
-	mu      sync.Mutex
-	stopped bool
+	// mu orders Stop against the re-arming of an interval. gen counts the calls
+	// of Stop: a goroutine of the timer that was started before a Stop (it is
+	// given the count at its start) and has received a tick finds another count
+	// and knows that Stop ran meanwhile, whatever Refresh has done since.
+	mu  sync.Mutex
+	gen uint64
 }
 
 func (t *Timer) Refresh() *Timer {
 	t.mu.Lock()
 	defer t.mu.Unlock()
-	t.stopped = false
 
 	defer t.timer.Reset(t.sleep)
 
 	if !t.timer.Stop() {
-		go t.fn()
+		go t.fn(t.gen)
 	}
 
 	return t
@@ -53,16 +54,17 @@ func SetTimeout(fn func(), sleep time.Duration) *Timer {
 		sleep:  sleep,
 		stopCh: make(chan struct{}),
 	}
-	timer.fn = func() {
+	timer.fn = func(gen uint64) {
 		select {
 		case <-timer.timer.C:
 			vhook.Yield("timer.timeout.tick")
 			timer.mu.Lock()
-			stopped := timer.stopped
+			stopped := timer.gen != gen
 			timer.mu.Unlock()
 			if stopped {
 				// Stop ran after this tick was received: it could not signal
-				// stopCh and has returned, so the callback must not start.
+				// stopCh and has returned, so the callback must not start
+				// (a Refresh since then has started a goroutine of its own).
 				return
 			}
 			fn()
@@ -70,7 +72,7 @@ func SetTimeout(fn func(), sleep time.Duration) *Timer {
 			return
 		}
 	}
-	go timer.fn()
+	go timer.fn(0)
 	return timer
 }
 
@@ -82,7 +84,7 @@ func ClearTimeout(timer *Timer) {
 
 func (t *Timer) Stop() {
 	t.mu.Lock()
-	t.stopped = true
+	t.gen++
 	active := t.timer.Stop()
 	t.mu.Unlock()
 	if active {
@@ -97,13 +99,13 @@ func SetInterval(fn func(), sleep time.Duration) *Timer {
 		sleep:  sleep,
 		stopCh: make(chan struct{}),
 	}
-	timer.fn = func() {
+	timer.fn = func(gen uint64) {
 		for {
 			select {
 			case <-timer.timer.C:
 				vhook.Yield("timer.interval.tick")
 				timer.mu.Lock()
-				if timer.stopped {
+				if timer.gen != gen {
 					// Stop ran after this tick was received: it could not
 					// signal stopCh, so do not re-arm.
 					timer.mu.Unlock()
@@ -117,7 +119,7 @@ func SetInterval(fn func(), sleep time.Duration) *Timer {
 			}
 		}
 	}
-	go timer.fn()
+	go timer.fn(0)
 	return timer
 }
 
